@@ -261,7 +261,9 @@ func scnC08(rc *RunCtx) {
 		auditPipe.InjectReadError(syscall.EIO)
 	case "malformed-audit-line":
 		rc.Sim.Frozen = nil
-		aw.Write([]byte("type=SYSCALL this is not an audit record\n"))
+		// (a record that cannot be parsed, whatever it starts with)
+		aw.Write([]byte([]string{"type=SYSCALL this is not an audit record", "type=SYSCALL this is not an audit record",
+			"type=UNKNOWN[1420] msg=audit(16738860", "type=UNKNOWN[14xx] msg=audit(1673886030.123:77): x=1", "audit(1673886030.123:77): no type"}[t.Choose(5, "bad.line")] + "\n"))
 		rc.Sim.Count("line.malformed_audit")
 	case "write-error-userlogin":
 		disk.FailAt, disk.FailAll = disk.Calls+1, true
